@@ -49,7 +49,8 @@ FreshX(ck) ==
 \* event with the counters and the last result/error the user code would read from the event's execution view
 Ev(s, name, layer, last, extra) ==
   [s EXCEPT !.x.ev = Append(@, [ev |-> name, L |-> layer, att |-> s.x.att, exe |-> s.x.exe, ret |-> s.x.ret, hdg |-> s.x.hdg,
-                                 lr |-> last.r, le |-> last.e, x |-> extra])]
+                                 lr |-> last.r, le |-> last.e, x |-> extra,
+                                 st |-> s.x.t0, el |-> s.now - s.x.t0])]       \* StartTime() / ElapsedTime() as user code reads them there
 ObjLastAt(s, i) == s.x.objLast[ObjOf(i)]
 
 Desc(s) == [s EXCEPT !.x.i = @ + 1]
